@@ -16,6 +16,16 @@ CHECKS = {
         "search axioms, int() of header fields as an uninterpreted function, open(name,'rb') yields the file's bytes "
         "and cannot fail; the VC generator's encoding of the Python subset (A-SEM, cross-checked against CPython).",
    technique="contract-based deductive verification: AST->VC symbolic executor + SMT (z3 5.1 / z3 4.8.12 / cvc5)"),
+ "C18": dict(
+   category="other",
+   text="patches_from_ed_script and patch_lines are verified against recursive specification functions (spec parser of the ed "
+        "script incl. shared-iterator text blocks, fold of slice assignments) for all scripts and line lists, str and bytes: "
+        "loop invariants, exceptional postcondition 'ValueError iff malformed/unterminated'. The end-to-end clause against an "
+        "independent diff is a bounded stand-in (difflib and diff -e).",
+   design="DESIGN.md §5 C18",
+   note="Trusted: speclib models (iterators, list slice assignment, re.match as uninterpreted matches?/groups functions with the "
+        "stated group facts), well-definedness of the recursive spec functions, A-SEM, A-GEN. Bounded part: stated alphabet/bounds.",
+   technique="contract-based deductive verification (loop invariants + recursive spec functions, SMT) with a bounded stand-in for the diff-derived clause"),
 }
 
 NOT_YET = "check not built yet in this revision of /verif (see DESIGN.md §7 for the order of construction)"
